@@ -12,7 +12,7 @@ import supp.umsgpack as U
 PROPERTY = 'C14'
 LEVEL = 'fault_enumeration'
 BUDGET_S = {'quick': 100, 'thorough': 1500}
-UNIT_TIMEOUT_S = 600
+UNIT_TIMEOUT_S = 1200
 RULE = ('Cases: every integer within +-3 of +-2^k (k in 5,7,8,15,16,31,32,63,64), every str/bin/ext/array/map '
         'length within +-2 of 15/16, 31/32, 255/256, 65535/65536, all 256 first bytes, out-of-range integers, seeded '
         'random nested values (depth<=6), each encoded by the real codec and by the reference encoder in every legal '
@@ -81,6 +81,7 @@ def plan(tier, seed, scale=1.0):
     ints = values.boundary_ints()
     for i in range(0, len(ints), 16):
         units.append({'kind': 'ints', 'ints': [str(x) for x in ints[i:i + 16]]})
+    units.append({'kind': 'shapes'})
     fl = values.boundary_floats()
     for i in range(0, len(fl), 32):
         units.append({'kind': 'floats', 'floats': [values.fspec(x)['f'] for x in fl[i:i + 32]]})
@@ -105,7 +106,7 @@ def selftest_units(tier, seed):
             {'kind': 'sequences', 'seed': seed, 'first': 0, 'count': 300},
             {'kind': 'len', 'family': 'map', 'spec': {'M': 17}, 'n': 17, 'tier': 'quick', 'seed': seed},
             {'kind': 'ints', 'ints': ['-33', '255', '65536']},
-            {'kind': 'floats', 'floats': ['3ff0000000000001', '47efffffe0000000']}]
+            {'kind': 'floats', 'floats': ['3ff0000000000001', '47efffffe0000000']}, {'kind': 'shapes'}]
 
 
 # ---------------------------------------------------------------- one unit
@@ -622,6 +623,12 @@ def _run_unit(unit):
                                 'reference_encodings_decoded': {o: e.hex() for o, e in all_choices(x0)},
                                 'stream_cut_after_bytes': list(range(len(U.dumps(x0)))),
                                 'expected_at_every_cut': 'InsufficientDataException'})
+    elif kind == 'shapes':
+        rng = prng.rng('c14-shapes')
+        for spec in values.shapes():
+            run_value(acc, spec, 'quick', rng, True)
+        acc.probes['shared_container_values'] = acc.probes.get('shared_container_values', 0) + 1
+        acc.samples.append({'kind': 'shapes', 'specs': values.shapes()[:3]})
     elif kind == 'floats':
         rng = prng.rng('c14-floats')
         for h in unit['floats']:
@@ -723,8 +730,10 @@ def _children(spec):
             for i, (kk, vv) in enumerate(a):
                 for c in _children(vv)[:4]:
                     out.append({'m': a[:i] + [[kk, c]] + a[i + 1:]})
-        elif k == 'A':
+        elif k in ('A', 'R', 'Rm'):
             out.append(a[0])
+            if k != 'A' and a[1] > 2:
+                out.append({k: [a[0], 2]})
         elif k == 's' and len(a) > 1:
             out.append({'S': ['a', len(a.encode('utf-8'))]})
     return out
